@@ -407,7 +407,8 @@ def _forward_table(ctx: Ctx, fwd, rel: str) -> bool:
 
     def surrogate(e, d):
         e = np.asarray(e, dtype=object)
-        w = np.vectorize(lambda z: Fr(0) if z == -math.inf else Fr(2) ** z, otypes=[object])(e)
+        # (+inf - a non-finite score, e.g. padding garbage - poisons its group with NaN, as the library's softmax does)
+        w = np.vectorize(lambda z: Fr(0) if z == -math.inf else (math.nan if z == math.inf else Fr(2) ** z), otypes=[object])(e)
         tot = w.sum(axis=d, keepdims=True)
         if (tot == 0).any():
             raise NotEvaluable("softmax over an all-masked group")
@@ -432,7 +433,7 @@ def _forward_table(ctx: Ctx, fwd, rel: str) -> bool:
                         for idx in np.ndindex(shape):
                             if idx[ax] == 1 and sum(idx) % 2 == 0:
                                 M[idx] = False
-                                E[idx] = Fr(50)
+                                E[idx] = math.inf if use_mask is True else Fr(50)  # (a huge - here even non-finite - score behind the mask)
                                 V[idx + (0,)] = math.inf
                                 V[idx + (1,)] = math.inf
                     holder = {}
